@@ -8,6 +8,7 @@ import (
 	"sort"
 	"strings"
 
+	"github.com/buildbuildio/pebbles/merger"
 	"github.com/vektah/gqlparser/v2/ast"
 
 	"verif/harness/hx"
@@ -36,7 +37,58 @@ func mgEval(ctx *Ctx, prop string, idx int, c mgCase) []mgOutcome {
 			break
 		}
 	}
+	mgReuse(ctx, idx, c)
 	return outs
+}
+
+// mgReuse: the SAME loaded schema values take part in two merges (a gateway that re-merges, or two
+// gateways built over one introspection result). The second merge — of the first service alone —
+// must expose exactly what that service declares: a merge may not write into its inputs.
+func mgReuse(ctx *Ctx, idx int, c mgCase) {
+	if len(c.SDL) < 2 {
+		return
+	}
+	perm := make([]int, len(c.SDL))
+	for i := range perm {
+		perm[i] = i
+	}
+	in, err := mgLoadInputs(c, perm)
+	if err != nil {
+		return
+	}
+	var m merger.Merger = merger.ExtendMergerFunc(nil)
+	if c.Mode == "sanitize" {
+		m = merger.SanitizeNodeMergerFunc(nil)
+	}
+	merge := func(l []*merger.MergeInput) (items []string, outcome string) {
+		defer func() {
+			if p := recover(); p != nil {
+				outcome = "panic"
+			}
+		}()
+		res, err := m.Merge(l)
+		if err != nil {
+			return nil, "error"
+		}
+		return mgSchemaItems(res.Schema), "ok"
+	}
+	before, ok0 := merge(in[:1])
+	if _, ok := merge(in); ok != "ok" || ok0 != "ok" {
+		return
+	}
+	ctx.Rep.Count("reuse: the first service merged alone before and after a full merge of the same schema values")
+	after, ok1 := merge(in[:1])
+	if ok1 != "ok" || !mgEqStrs(before, after) {
+		onlyBefore, onlyAfter := mgDiffStrs(before, after)
+		ctx.Rep.Fail(hx.Failure{Kind: "property-fails", Detail: fmt.Sprintf("merging service 0 alone AFTER a full merge of the same schema values gives another schema than before it (%s): gained %v, lost %v — the merge wrote into its input", ok1, clipList(onlyAfter, 4), clipList(onlyBefore, 4)), Case: c, Index: idx})
+	}
+}
+
+func clipList(xs []string, n int) []string {
+	if len(xs) > n {
+		return append(append([]string{}, xs[:n]...), fmt.Sprintf("… %d more", len(xs)-n))
+	}
+	return xs
 }
 
 func stripOutcome(o mgOutcome) interface{} {
